@@ -269,6 +269,10 @@ func (u *Unit) external(st *State, fr *Frame, in *ssa.Call, fn *ssa.Function, ar
 			}
 		}
 		return u.pureExternal(st, name, args, rt), true
+	case "crypto/ed25519", "crypto/sha512", "github.com/go-i2p/crypto/types", "github.com/go-i2p/crypto/kdf":
+		// A-CRYPTO: deterministic functions of their arguments, no writes to
+		// caller-visible memory (uninterpreted)
+		return u.pureExternal(st, name, args, rt), true
 	case "strconv", "net", "unicode", "encoding/hex", "sort", "encoding/base32", "encoding/base64", "crypto/sha256":
 		// deterministic, no effect on caller-visible memory; results uninterpreted
 		switch name {
@@ -438,6 +442,18 @@ func (u *Unit) invokeModel(st *State, fr *Frame, in *ssa.Call, recv IfaceV, m *t
 			u.blkInfo[s.Blk.S] = blkMeta{base: u.ifaceBase(st, key), epoch: len(st.order)}
 			st.memo["ifbytes:"+key] = s
 			return s, true
+		}
+	}
+	// A-CRYPTO: constructors of helper objects return a usable object exactly
+	// when they return no error
+	if recv.Opq != nil && sig.Results().Len() == 2 && types.Identical(sig.Results().At(1).Type(), types.Universe.Lookup("error").Type()) {
+		if _, isIface := sig.Results().At(0).Type().Underlying().(*types.Interface); isIface && (strings.HasPrefix(m.Name(), "New")) {
+			u.Assumed["A-CRYPTO: key."+m.Name()+"() returns a non-nil object exactly when it returns no error"]++
+			okb := u.newBool("newok")
+			obj := IfaceV{Nil: Not(okb), Opq: u.newInt("obj")}
+			er := IfaceV{Nil: okb, Opq: u.newInt("objerr")}
+			u.ifBound[obj.Opq.S] = Add(st.wm, IntLit(int64(st.nalloc)))
+			return TupleV{E: []Val{obj, er}}, true
 		}
 	}
 	switch m.Name() {
